@@ -105,12 +105,14 @@ enum OpKind {
   OP_DIRECT_DECODE,   // stream, faults, trail (reusable method decoder)
   OP_BAD_ENCODE,      // obj = encoder, geom, buf: options the encoder rejects
   OP_EXPERT_SETOPTS,  // obj = expert slot, opts (setters on the existing object)
+  OP_BUF_WRITE,       // buf, append, a: the caller's own record in the buffer
+                      // (bytes + a bit sequence, a&1 = with stored size)
   OP_NUM
 };
 const char *kOpNames[OP_NUM] = {"setopts",       "reset",         "encode",
                                 "expert_new",    "expert_encode", "direct_encode",
                                 "decode",        "skip",          "direct_decode",
-                                "bad_encode",    "expert_setopts"};
+                                "bad_encode",    "expert_setopts", "buf_write"};
 
 struct Op {
   int kind = 0;
@@ -367,9 +369,13 @@ EnvPlan GeneratePlan(uint64_t seed, int size_class_max,
     } else if (pick < 16) {
       op.kind = OP_RESET;
       op.obj = static_cast<int>(ro.Below(2));
-    } else if (pick < 38) {
+    } else if (pick < 34) {
       op.kind = OP_ENCODE;
       op.obj = static_cast<int>(ro.Below(2));
+    } else if (pick < 38) {
+      op.kind = OP_BUF_WRITE;
+      op.a = static_cast<int>(ro.Below(128));
+      op.trail_seed = ro.Next() >> 2;
     } else if (pick < 44) {
       op.kind = OP_EXPERT_NEW;
       op.obj = static_cast<int>(ro.Below(2));
@@ -661,6 +667,23 @@ void ExecOp(const EnvPlan &p, const Materials &m, const Op &op, Objects *o,
       FinishEncode(st, b, before, ph, r);
       break;
     }
+    case OP_BUF_WRITE: {
+      // What a caller that frames several records in one buffer does through
+      // the buffer's public interface between two encodes.
+      draco::EncoderBuffer *b = &o->buf[op.buf];
+      if (!op.append) b->Clear();
+      const uint32_t tag = 0xC0DEC0DEu;
+      b->Encode(tag);
+      const int nbits = 8 + (op.a >> 1) % 48;
+      if (b->StartBitEncoding(nbits, (op.a & 1) != 0)) {
+        for (int i = 0; i < nbits; ++i)
+          b->EncodeLeastSignificantBits32(
+              1, static_cast<uint32_t>((op.trail_seed >> (i % 61)) & 1));
+        b->EndBitEncoding();
+      }
+      r->ok = 1;
+      break;
+    }
     case OP_SKIP:
       o->dec[op.obj]->SetSkipAttributeTransform(
           static_cast<draco::GeometryAttribute::Type>(op.a));
@@ -927,6 +950,10 @@ uint64_t RunPlan(const EnvPlan &p, const std::string &repo,
           ref[k].ran = 1;
           ref[k].ok = 1;
           continue;
+        case OP_BUF_WRITE:
+          ref[k].ran = 1;
+          ref[k].ok = 1;
+          continue;
         default:
           break;
       }
@@ -1037,7 +1064,8 @@ uint64_t RunPlan(const EnvPlan &p, const std::string &repo,
         return log.Digest();
       }
       if (e == 0) {
-        int slot = op.kind <= OP_ENCODE || op.kind == OP_BAD_ENCODE
+        int slot = op.kind == OP_BUF_WRITE ? 8 + op.buf
+                   : op.kind <= OP_ENCODE || op.kind == OP_BAD_ENCODE
                        ? op.obj
                        : (op.kind <= OP_EXPERT_ENCODE || op.kind == OP_EXPERT_SETOPTS
                               ? 2 + op.obj
@@ -1075,7 +1103,7 @@ uint64_t RunPlan(const EnvPlan &p, const std::string &repo,
       if (!x.ran) continue;
       const bool is_setter = op.kind == OP_SETOPTS || op.kind == OP_RESET ||
                              op.kind == OP_SKIP || op.kind == OP_EXPERT_NEW ||
-                             op.kind == OP_EXPERT_SETOPTS;
+                             op.kind == OP_EXPERT_SETOPTS || op.kind == OP_BUF_WRITE;
       if (is_setter) continue;
       const char *cls = e == 0 ? "history_dependence" : "environment_dependence";
       // A decode with bytes appended is compared with the decode of the bare
